@@ -187,6 +187,30 @@ def r2_handler_class(report, repo):
                'the record is appended to the handler\'s own test record')
 
 
+def r2b_append_once(report, repo):
+  rule = 'C19-R2'
+  f = repo.func(TR, 'TestRecord.add_log_record')
+  par = lib.param_names(f.node)[1]
+  from sa import cfg as cfgm  # pylint: disable=g-import-not-at-top
+  paths = [p for p in cfgm.walk_paths(lib.cfg(f), lambda n, s: None)
+           if p.end == 'exit']
+  ok = bool(paths)
+  for p in paths:
+    a = [c for c in p.calls(attr='append')]
+    rec = [c for c in a if dotted(c.func.value) == 'self.log_records' and
+           dotted(c.args[0]) == par]
+    cch = [c for c in a if dotted(c.func.value) == 'self._cached_log_records']
+    if len(rec) != 1 or len(cch) != 1:
+      ok = False
+  report.check(ok, rule, f.qualname, 'append-once', f.node,
+               'every captured record is appended exactly once to log_records '
+               'and, on the same path, its rendering to the serialized list',
+               'add_log_record does not append the record and its rendering '
+               'exactly once on every path (e.g. lazy conversion in '
+               'as_base_types duplicates / drops messages when two threads '
+               'serialise the running record)')
+
+
 def r3_fields(report, repo):
   rule = 'C19-R3'
   report.rule(rule, 'T-AGREE: LogRecord field order vs. the values emit() '
@@ -469,6 +493,7 @@ def r6_mac(report, repo):
 def run(report, repo):
   r1_handlers(report, repo)
   r2_handler_class(report, repo)
+  r2b_append_once(report, repo)
   r3_fields(report, repo)
   r4_uid_filter(report, repo)
   r5_loggers(report, repo)
